@@ -19,7 +19,7 @@ const MODS: [&str; 4] = ["A", "B", "C", "D"];
 /// two different member signatures, importers whose well-typedness depends on that signature,
 /// cycles, self-imports, imports from a module that only exists after a rename (D), local type
 /// errors, syntax errors, empty files.
-const TEXTS: [&str; 19] = [
+const TEXTS: [&str; 21] = [
   /* 0 */ "class X(val v: int) {\n  function mk(): X = X.init(1)\n  function f(): int = 1\n}\n",
   /* 1 */ "class X(val v: int) {\n  function mk(): X = X.init(1)\n  function f(): bool = true\n}\n",
   /* 2 */
@@ -53,9 +53,14 @@ const TEXTS: [&str; 19] = [
   // a dependant whose diagnostic quotes a location inside the imported module (the declared type of
   // the constructor parameter): its reference locations and code frames follow the layout of A
   /* 18 */ "import { X } from A\nclass Y {\n  function g(): X = X.init(\"text\")\n  function h(): X = X.mk(1)\n}\n",
+  // checking an importer re-reports an error that is LOCATED in the imported module (a class used as
+  // a super type of an interface, found again through the importer's super-type chain): the imported
+  // module has a second error of its own, the importer also imports an unrelated module
+  /* 19 */ "class K {}\ninterface IB : K {}\nclass Q {\n  function f(): int = \"s\"\n}\n",
+  /* 20 */ "import { IB } from B\nimport { X } from A\nclass CC : IB {\n  function g(): int = X.f()\n}\n",
 ];
 
-const INITS: [&[(u8, u8)]; 11] = [
+const INITS: [&[(u8, u8)]; 12] = [
   &[],
   &[(0, 0), (1, 2)],
   &[(0, 1), (1, 2)],
@@ -67,6 +72,7 @@ const INITS: [&[(u8, u8)]; 11] = [
   &[(0, 13), (2, 5)],
   &[(0, 13), (1, 14)],
   &[(0, 1), (1, 18)],
+  &[(0, 0), (1, 19), (2, 20)],
 ];
 const UPDATE2: [[(u8, u8); 2]; 4] =
   [[(0, 1), (1, 3)], [(0, 0), (1, 2)], [(0, 8), (2, 2)], [(1, 0), (2, 10)]];
